@@ -207,7 +207,19 @@ func c06Bindings(c *Ctx, ht *types.Named, funcs map[string]*ssa.Function) {
 		})
 		return found
 	}
-	toStrings := c.Func("html", "cellsToStringArray")
+	// the helper that turns a list of cells into their texts: found by its signature func([]Cell) []string
+	var toStrings *ssa.Function
+	for _, f := range c.ModFuncs("html") {
+		sig := f.Signature
+		if sig.Recv() != nil || sig.Params().Len() != 1 || sig.Results().Len() != 1 {
+			continue
+		}
+		ps, okP := sig.Params().At(0).Type().Underlying().(*types.Slice)
+		rs, okR := sig.Results().At(0).Type().Underlying().(*types.Slice)
+		if okP && okR && isNamed(ps.Elem(), modPath, "Cell") && isStringType(rs.Elem()) {
+			toStrings = f
+		}
+	}
 	viaStrings := func(f *ssa.Function) bool {
 		ok := false
 		for _, ret := range returnsOf(f) {
